@@ -74,6 +74,7 @@ type Config struct {
 	InitPkgs      map[string]bool // package paths whose init is executed
 	Redirects     map[string]string
 	SkipFuncs     map[string]bool
+	BigW          int
 	Trace         bool
 	Deadline      time.Time
 	ExpectPanic   bool
